@@ -40,7 +40,9 @@ CHECKS = {
  "C06": ("model_checking", "6 C06",
          "All three traversals and generator forms run on the real objects in every fully assigned graph state over the pool, for "
          "every universe (None / every subset) x start x direction x handling (+ sampled filters); TLC compares with the traversal "
-         "operators and separately proves on every lemma graph that those list exactly the reachable in-universe set once each.",
+         "operators and separately proves on every lemma graph that those list exactly the reachable in-universe set once each. "
+         "Generator forms additionally as step machines interleaved with structural calls (spec/EGLazy.tla: every interleaving "
+         "model-checked; TLC behaviours as schedules and random histories of real generators followed by JudgeLazy).",
          "TLC model checking of lemmas + trace validation (answer = operator)"),
  "C07": ("model_checking", "6 C07",
          "Same executions judged element by element for order against the loop-mirroring operators; TLC shows on every lemma graph "
@@ -78,7 +80,8 @@ CHECKS = {
  "C14": ("model_checking", "6 C14",
          "render_to_plantuml_src run on real objects in every fully assigned graph state over the pool (mixed vertex classes) for every "
          "ordered member list x 3 option tables x 2 title formats; output parsed back; TLC compares declarations (bag) and relation "
-         "lines (bag, orientation, arrow ends by nearest configured class) with EGRender.",
+         "lines (bag, orientation, arrow ends by nearest configured class) with EGRender. Informational stage: render_to_image / "
+         "is_plantuml_installed against a fake PlantUML command in every failure mode (spec/EGImage.tla).",
          "TLC-evaluated specification + trace validation (parsed output = operator)"),
  "C15": ("model_checking", "6 C15",
          "make_pyvis_net / pyvis_render_customizable run on real objects for every ordered member list in every graph state over the "
